@@ -355,7 +355,18 @@ Definition status_rt_spec_ok (s : status) (omar : string) (oun : obs status) : b
 (** (status-dec text): UnmarshalText into a fresh Status *)
 Definition status_dec_agrees (b : string) (o : obs status) : bool :=
   obs_eqb status_eqb (obs_of (status_unmarshal status_zero b)) o.
-Definition status_dec_spec_ok (b : string) (o : obs status) : bool := dec_spec_ok status_eqb (status_den b) o.
+(** The property obliges a decoder to refuse every text outside the grammar, never to
+    panic, never to yield a value other than the one the text denotes, and to read back
+    every status line of the round-trip domain (codes 100..999).  A status-line whose code
+    is 000..099 is in the grammar of RFC 7230 but outside that domain (there is no class
+    0; the encoder cannot write such a code with three digits): the decoder may read it
+    (with the value it denotes) or refuse it. *)
+Definition status_dec_spec_ok (b : string) (o : obs status) : bool :=
+  match status_den b with
+  | Some v => if status_in_domain v then dec_spec_ok status_eqb (Some v) o
+              else dec_spec_sound status_eqb (Some v) o
+  | None => dec_spec_ok status_eqb None o
+  end.
 
 (** net/http.StatusText cross-check: (status-text code) text *)
 Definition status_text_agrees (c : Z) (t : string) : bool := String.eqb (status_text c) t.
